@@ -147,6 +147,7 @@ class Ctx:
         self.fn_index = []       # dicts describing every fn emitted
         self.closure_n = 0
         self.stub_fns = set()
+        self.drop_contract_fns = set()
         self.drop_uses = set()   # (file, normalised use text) dropped on retry (unresolved import in changed code)
         self.gen_axioms = []     # (file, enum, variant, source type, ctor suffix): `?` conversion facts for synthesised #[from] impls
         self.lifted = []
@@ -617,6 +618,7 @@ class FileEmitter:
         key = (self.rel, ik, it.name)
         spec = ctx.specs.fns.get(key)
         if spec: spec.used = True
+        if ("%s|%s::%s" % key) in ctx.drop_contract_fns: spec = None   # contract no longer fits the (changed) signature
         sig = R.text(it.sig).replace("crate::core", "crate::rp_core")
         if "ValidatorFn" in sig:
             new = re.sub(r"(&'static\s+)ValidatorFn\b", r"\1dyn ValidatorFn", sig)
@@ -699,8 +701,9 @@ class FileEmitter:
                 if body2 != body: self.ctx.log("R-le", self.rel, it.line, "a <= b on OffsetDateTime", "a.le(&b)"); body = body2
             verdict = (spec.closures.get(n) if spec else None) or "true"
             lab = spec.opts.get("closure%d" % n) if spec else None
-            self.extra.append("pub struct %s;\nimpl ValidatorFn for %s {\n    open spec fn verdict(&self, key: Seq<char>, value: Value) -> bool {\n%s\n    }\n"
-                              "    fn call(&self, %s: &str, %s: &Value) -> (r: Result<(), PasetoClaimError>)\n%s\n}\n" % (name, name, verdict, a1, a2, body))
+            self.extra.append(("pub struct %s;\nimpl ValidatorFn for %s {\n    open spec fn verdict(&self, key: Seq<char>, value: Value) -> bool {\n%s\n    }\n"
+                              "    fn call(&self, %s: &str, %s: &Value) -> (r: Result<(), PasetoClaimError>)\n%s\n}\n" % (name, name, verdict, a1, a2, body),
+                               {"file": self.rel, "impl": "impl ValidatorFn for " + name, "fn": "call", "src_line": it.line, "part": "ensures" if lab else "body", "label": lab}))
             self.ctx.fn_index.append({"file": self.rel, "impl": "impl ValidatorFn for " + name, "fn": "call", "line": it.line, "external_body": False, "stubbed": False,
                                       "body_hash": hashlib.sha1(re.sub(r"\s+", " ", body).encode()).hexdigest()[:16], "hints_dropped": [], "body_text": re.sub(r"\s+", " ", body)[:6000],
                                       "contract": True, "safety": spec.safety if spec else [], "labels": [lab] if lab else [],
@@ -863,14 +866,15 @@ def emit_module(ctx, out, rel, modname, include, stubset, depth=0):
         rest.append(it)
     em.emit_items(rest)
     for t in em.extra:
-        out.add(t)
+        if isinstance(t, tuple): out.add(t[0], t[1])
+        else: out.add(t)
     for t in ctx.specs.items.get(rel, []):
         out.add(t + "\n", {"file": rel, "part": "spec_items"})
     out.add("} // verus!\n")
     if modname is not None:
         out.add("} // mod %s\n" % modname)
 
-def build(include=None, stubset=(), spec_paths=None, shim_paths=None, out_path=None, stub_fns=(), drop_uses=()):
+def build(include=None, stubset=(), spec_paths=None, shim_paths=None, out_path=None, stub_fns=(), drop_uses=(), drop_contract_fns=()):
     specs = Specs()
     for p in (spec_paths or []):
         parse_vspec(p, specs)
@@ -878,7 +882,7 @@ def build(include=None, stubset=(), spec_paths=None, shim_paths=None, out_path=N
     ctx_theorems = []
     ctx.theorems = ctx_theorems
     ctx.files = []; ctx.excluded = []
-    ctx.stub_fns = set(stub_fns); ctx.drop_uses = set(drop_uses)
+    ctx.stub_fns = set(stub_fns); ctx.drop_uses = set(drop_uses); ctx.drop_contract_fns = set(drop_contract_fns)
     ctx.used_companions = set(); ctx.used_implitems = set()
     out = Out()
     out.add("#![feature(allocator_api)]\n#![feature(sized_hierarchy)]\n#![allow(unused)]\n#![allow(unused_imports, dead_code, non_camel_case_types, unused_parens, unused_braces)]\nuse vstd::prelude::*;\n")
